@@ -34,24 +34,27 @@ open Ring
 def progress (c : Cons) : Nat :=
   if c.pc = .handle then c.i - 1 else if c.pc = .publish then c.avail else c.cur
 
-theorem c04_log_is_prefix {x : PSt} (hr : Reachable x) (k j : Nat) (hk : k < x.s.K) (hj : j < x.s.h k) :
-    (x.s.cons k j).log = List.range' 1 (progress (x.s.cons k j)) ∧ progress (x.s.cons k j) ≤ x.s.cursor := by
-  have hA := reachable_inv hr
-  obtain ⟨hI, hK, hP, hb⟩ := hA
+/-- consumer-side fact, independent of the kind of producer: it only needs the consumer invariant -/
+theorem log_prefix_of_inv (s : St) (hI : Ring.Inv s) (k j : Nat) (hk : k < s.K) (hj : j < s.h k) :
+    (s.cons k j).log = List.range' 1 (progress (s.cons k j)) ∧ progress (s.cons k j) ≤ s.cursor := by
   have hc := hI.2 k j hk hj
-  have hup := chain_up x.s hI k j hk hj
+  have hup := chain_up s hI k j hk hj
   unfold progress
-  by_cases h1 : (x.s.cons k j).pc = .handle
-  · have hav := avail_le_cursor x.s hI k j hk hj (by simp [h1])
+  by_cases h1 : (s.cons k j).pc = .handle
+  · have hav := avail_le_cursor s hI k j hk hj (by simp [h1])
     have := hc.iLe h1
     simp only [h1, if_true]
     exact ⟨hc.logH h1, by omega⟩
-  · by_cases h2 : (x.s.cons k j).pc = .publish
-    · have hav := avail_le_cursor x.s hI k j hk hj (by simp [h2])
+  · by_cases h2 : (s.cons k j).pc = .publish
+    · have hav := avail_le_cursor s hI k j hk hj (by simp [h2])
       simp only [h1, h2, if_false, if_true]
       exact ⟨hc.logP h2, hav⟩
     · simp only [h1, h2, if_false]
       exact ⟨hc.logO h1 h2, hup⟩
+
+theorem c04_log_is_prefix {x : PSt} (hr : Reachable x) (k j : Nat) (hk : k < x.s.K) (hj : j < x.s.h k) :
+    (x.s.cons k j).log = List.range' 1 (progress (x.s.cons k j)) ∧ progress (x.s.cons k j) ≤ x.s.cursor :=
+  log_prefix_of_inv x.s (reachable_inv hr).1 k j hk hj
 
 /-- strictly increasing, gap-free, no repetition: immediate from `log = [1 … m]` -/
 theorem c04_log_strictly_increasing {x : PSt} (hr : Reachable x) (k j : Nat) (hk : k < x.s.K) (hj : j < x.s.h k) :
@@ -192,8 +195,8 @@ end Payload
 
 /-! ## multi-producer pipelines
 
-No delivery theorem is claimed for the multi-producer sequencer: the statement is false for it (known finding F8). The
-witness below is schedule-exact and agrees with what the real code does under the same schedule (harness corpus case
+The full delivery statement is false for the multi-producer sequencer (known finding F8); the consumer-side half
+(`c04_multi_log_is_prefix`: in order, no gaps, no repetition, nothing above the cursor) holds for every schedule. The witness below is schedule-exact and agrees with what the real code does under the same schedule (harness corpus case
 `F7-witness`): two writers claim 1 and 2, the second publishes first, the first publishes last; `drain` waits for the cursor
 (1) only, so the handler terminates having been handed `[1]` although 2 was written and its `write` call had returned. -/
 section Multi
@@ -202,6 +205,13 @@ open RingMulti
 def lostRun : MSt := runM (mkM 4 1 (fun _ => 1) false [[1], [1]])
   ((List.replicate 6 (MTid.writer 0)) ++ (List.replicate 20 (MTid.writer 1)) ++ (List.replicate 20 (MTid.writer 0)) ++
    (List.replicate 12 (MTid.cons 0 0)) ++ (List.replicate 12 MTid.drainer) ++ (List.replicate 8 (MTid.cons 0 0)))
+
+/-- **multi producer, what does hold** (every ring size, topology, wait strategy, any number of writer threads, every
+schedule): each handler has been handed exactly `1 … m`, once each, in order, for some `m ≤ cursor` — whatever the writers do,
+no handler ever sees a sequence twice, out of order, or above the cursor -/
+theorem c04_multi_log_is_prefix {x : MSt} (hr : MReachableWF x) (k j : Nat) (hk : k < x.s.K) (hj : j < x.s.h k) :
+    (x.s.cons k j).log = List.range' 1 (progress (x.s.cons k j)) ∧ progress (x.s.cons k j) ≤ x.s.cursor :=
+  log_prefix_of_inv x.s (mreachableWF_good hr).2.1 k j hk hj
 
 theorem c04_multi_stranded_event_lost :
     (lostRun.wr 0).pc = .done ∧ (lostRun.wr 1).pc = .done ∧ lostRun.dr.pc = .done ∧ (lostRun.s.cons 0 0).pc = .done ∧
